@@ -169,6 +169,14 @@ def get_division_candidate(
                 include, x2.coefficients[idx2], 1
             )
 
+            # a ratio that overflowed or is undefined (inf, nan) is no
+            # reduction step: taking it fills the remainder with nan terms of
+            # ever higher degree and the loop never ends.
+            if candidate.dtype.kind in "fc":
+                include = include & numpy.isfinite(candidate)
+                if not numpy.any(include):
+                    continue
+
             # really big relative error makes division algorithm
             # into a convergence strategy which needs a cutoff.
             if numpy.all(numpy.abs(candidate) < cutoff):
